@@ -1064,6 +1064,11 @@ reg("create", 0, lambda tp: _gen_creation(tp), lambda p: _np_creation(p), None, 
 
 INEXACT_CREATE = {"linspace", "random"}
 NO_DIRECT_ORACLE = {"qr", "svd"}  # factors are unique only up to signs
+# discontinuous functions amplify legitimate rounding differences: only applied to exact values
+DISCONTINUOUS = {"floor", "ceil", "trunc", "sign", "equal", "not_equal", "less", "greater_equal", "astype",
+                 "argred", "where", "searchsorted", "count_nonzero", "any", "all", "scalar_op", "isnan", "isfinite",
+                 "logical_not", "logical_and", "logical_or", "logical_xor", "remainder", "floor_divide", "groupby",
+                 }
 
 
 class Shadow:
@@ -1299,6 +1304,8 @@ def generate_program(tp: Tape, max_steps=8, max_extent=12, profile="general", n_
                 p = None
         if p is None:
             continue
+        if name in DISCONTINUOUS and any(not sh.exact[i] or sh.random[i] for i in args):
+            continue
         step = dict(op=name, args=args, p=p)
         if name == "searchsorted":
             # x1 must be sorted: only allowed directly on an input, which is then flagged sorted
@@ -1471,6 +1478,9 @@ def valid_program(prog) -> bool:
         with warnings.catch_warnings():
             warnings.simplefilter("ignore")
             sh = shadow_of(prog)
+        for st in prog["steps"]:
+            if st["op"] in DISCONTINUOUS and any(not sh.exact[i] or sh.random[i] for i in st["args"]):
+                return False
         return all(o < len(sh.values) for o in prog["outputs"])
     except Exception:  # noqa: BLE001
         return False
